@@ -1,0 +1,20 @@
+//go:build verif
+// +build verif
+
+package network
+
+import "sync/atomic"
+
+var verifHook atomic.Value // func(point string, args ...interface{})
+
+// SetVerifHook installs the function called at every scheduling point. The
+// hook may record the event and may block the calling goroutine.
+func SetVerifHook(f func(point string, args ...interface{})) {
+	verifHook.Store(f)
+}
+
+func verifAt(point string, args ...interface{}) {
+	if f, ok := verifHook.Load().(func(string, ...interface{})); ok && f != nil {
+		f(point, args...)
+	}
+}
